@@ -8,6 +8,7 @@ import (
 	"context"
 	"fmt"
 	"io"
+	"runtime"
 	"strings"
 	"time"
 
@@ -259,6 +260,7 @@ func runSlotScenario(c *Ctx) (term string, desc map[string]any, key string, nont
 		}
 	}
 	maxLen := 0
+	handoffs := 0
 	steps := 10 + c.intn(40)
 	for i := 0; i < steps; i++ {
 		w := c.intn(n)
@@ -276,16 +278,44 @@ func runSlotScenario(c *Ctx) (term string, desc map[string]any, key string, nont
 				if holder < 0 {
 					continue
 				}
-				plan = append(plan, fmt.Sprintf("acq%d(blocked)+rel%d", w, holder))
 				a := newActor()
 				var ret bool
 				a.start(func() { ret = k.slot.Acquire() })
 				a.settle(200 * time.Microsecond)
-				ws[holder].slot.Release()
-				a.wait()
-				a.stop()
-				add(fmt.Sprintf("CallRelease %s", coqNat(holder)), false)
-				add(fmt.Sprintf("CallAcquire %s %s", coqNat(w), coqBool(ret)), true)
+				switch v := c.intn(4); {
+				case v == 0:
+					// the holder's release hands its slot to the parked worker and that worker's query ends right
+					// behind the hand-off, before the worker runs again (one P: a goroutine made runnable by the
+					// channel hand-off cannot run before this one yields): the worker owns the slot it was handed
+					plan = append(plan, fmt.Sprintf("acq%d(blocked)+rel%d+cancel%d", w, holder, w))
+					prev := runtime.GOMAXPROCS(1)
+					ws[holder].slot.Release()
+					k.cancel()
+					runtime.GOMAXPROCS(prev)
+					k.done = true
+					a.wait()
+					a.stop()
+					handoffs++
+					add(fmt.Sprintf("CallRelease %s", coqNat(holder)), false)
+					add(fmt.Sprintf("CallAcquire %s %s", coqNat(w), coqBool(ret)), true)
+				case v == 1:
+					// the query ends first: the parked worker gives up, the release that follows wakes nobody
+					plan = append(plan, fmt.Sprintf("acq%d(blocked)+cancel%d+rel%d", w, w, holder))
+					k.cancel()
+					k.done = true
+					a.wait()
+					a.stop()
+					add(fmt.Sprintf("CallAcquire %s %s", coqNat(w), coqBool(ret)), true)
+					ws[holder].slot.Release()
+					add(fmt.Sprintf("CallRelease %s", coqNat(holder)), true)
+				default:
+					plan = append(plan, fmt.Sprintf("acq%d(blocked)+rel%d", w, holder))
+					ws[holder].slot.Release()
+					a.wait()
+					a.stop()
+					add(fmt.Sprintf("CallRelease %s", coqNat(holder)), false)
+					add(fmt.Sprintf("CallAcquire %s %s", coqNat(w), coqBool(ret)), true)
+				}
 				continue
 			}
 			plan = append(plan, fmt.Sprintf("acq%d", w))
@@ -306,11 +336,19 @@ func runSlotScenario(c *Ctx) (term string, desc map[string]any, key string, nont
 			maxLen = len(sem)
 		}
 	}
-	for _, k := range ws {
+	// every worker exits: it releases what it holds (a no-op for an unheld slot); the whole budget is free again
+	for i, k := range ws {
+		k.slot.Release()
+		add(fmt.Sprintf("CallRelease %s", coqNat(i)), true)
 		k.cancel()
 	}
-	term = fmt.Sprintf("QSlot {| sc_cap := %s; sc_workers := %s; sc_calls := %s |}", coqNat(capN), coqNat(n), coqList(calls))
-	desc = map[string]any{"kind": "slot", "cap": capN, "workers": n, "plan": strings.Join(plan, " "), "max_len": maxLen}
+	end := len(sem)
+	if end != 0 {
+		c.violation("q-slot-leak", fmt.Sprintf("query slot component: every worker released its slot, the semaphore still holds %d of %d", end, capN), map[string]any{"plan": plan})
+	}
+	term = fmt.Sprintf("QSlot {| sc_cap := %s; sc_workers := %s; sc_calls := %s; sc_end := %s |}", coqNat(capN), coqNat(n), coqList(calls), coqNat(end))
+	desc = map[string]any{"kind": "slot", "cap": capN, "workers": n, "plan": strings.Join(plan, " "), "max_len": maxLen, "handoffs": handoffs, "end": end}
 	c.dist("slot_cap", fmt.Sprint(capN))
+	c.dist("slot_handoffs", fmt.Sprint(handoffs))
 	return term, desc, fmt.Sprintf("%d/%d/%s", capN, n, strings.Join(plan, " ")), maxLen == capN
 }
